@@ -162,7 +162,7 @@ def receive(sess: Session, raw: bytes, fresh_rib: bool = True) -> dict:
         n.rib.incoming.clear()
     out = {'error': '', 'ribin': [], 'dropped': False}
     try:
-        m = Message.unpack(2, raw[19:], sess.neg)
+        m = Message.unpack(2, memoryview(raw)[19:], sess.neg)
         if not m.IS_EOR and Attribute.CODE.INTERNAL_DISCARD in m.data.attributes:
             out['dropped'] = True  # Protocol.read_message turns the whole UPDATE into a NOP
         text = sess.json.update(n, 'receive', m if m.IS_EOR else m.data, b'', b'', sess.neg)
